@@ -19,14 +19,14 @@ SPEC = dict(
                  'HashMap/PoolMap::front() const and back() const cannot be instantiated and are not called; the non-const overloads are'],
     exhaustive={Q: False, T: False},
     jobs=[
-        job('hmap', 'h_hash', 'hmap', cases={Q: 15000, T: 120000}, procs=16),
-        job('hset', 'h_hash', 'hset', cases={Q: 15000, T: 120000}, procs=16),
-        job('pmap', 'h_hash', 'pmap', cases={Q: 10000, T: 80000}, procs=16),
+        job('hmap', 'h_hash', 'hmap', cases={Q: 30000, T: 120000}, procs=16),
+        job('hset', 'h_hash', 'hset', cases={Q: 30000, T: 120000}, procs=16),
+        job('pmap', 'h_hash', 'pmap', cases={Q: 20000, T: 80000}, procs=16),
         job('chains', 'h_hash', 'chains', cases=-1, scale={Q: 5, T: 6}, procs=16),
         # the same generators against the -O2 build without sanitizers (the configuration the library ships in): model + structural walker only
-        job('hmap-O2', 'h_hash', 'hmap', variant='plain', cases={Q: 1500, T: 20000}, procs=8, args=['--start', '500000']),
-        job('hset-O2', 'h_hash', 'hset', variant='plain', cases={Q: 1500, T: 20000}, procs=8, args=['--start', '500000']),
-        job('pmap-O2', 'h_hash', 'pmap', variant='plain', cases={Q: 1500, T: 20000}, procs=8, args=['--start', '500000']),
+        job('hmap-O2', 'h_hash', 'hmap', variant='plain', cases={Q: 3000, T: 20000}, procs=8, args=['--start', '500000']),
+        job('hset-O2', 'h_hash', 'hset', variant='plain', cases={Q: 3000, T: 20000}, procs=8, args=['--start', '500000']),
+        job('pmap-O2', 'h_hash', 'pmap', variant='plain', cases={Q: 3000, T: 20000}, procs=8, args=['--start', '500000']),
     ],
     floors={Q: dict(ops=2500000, lookups=70000000, structure_walks=2500000, insert_existing_key=800000, eq_true_nonempty=200000, eq_false_same_size=200000, op_swap=130000,
                     op_copy_construct=90000, op_assign=50000, op_bulk_append=18000, op_bulk_remove=18000, op_remove_value=23000, op_remove_key=200000, op_remove_it=150000,
